@@ -374,7 +374,7 @@ def obligations(tier, seed):
                             replay=dict(scenario="c12_http_batch", vars=args, fixed={"n": n, "k": k}, region=z3.And(z3.UGE(s, 100), z3.ULE(s, 1000), *[z3.ULE((r_ - s) + 16, 32) for r_ in rids])), **common))
     # the caller passes range = min(reply ids) .. max(reply ids)+1 and the pending batch is looked up by that range: a reply can only
     # meet a pending batch of n > 1 with at least two (distinct) ids, and one of n = 1 with ids that are all equal
-    cases = [(1, 1), (2, 2), (3, 2), (2, 3), (3, 3)] if tier == "quick" else [(n, k) for n in (1, 2, 3, 4) for k in (1, 2, 3, 4, 5) if (n == 1 or k >= 2)]
+    cases = [(1, 1), (2, 2), (3, 2), (2, 3), (3, 3)] if tier == "quick" else [(n, k) for n in (1, 2, 3) for k in (1, 2, 3, 4) if (n == 1 or k >= 2)] + [(4, 4)]
     out += ws_backend_obligations(core, cases)
     out += ws_front_obligations(core, (2, 3) if tier == "quick" else (1, 2, 3, 4))
     # a reply that lacks an entry must not be taken for the reply to another batch in flight: the ids of a batch are not handed out again
